@@ -98,10 +98,10 @@ std::string readBack(const World& W)
 // ---------------------------------------------------------------- observed calls
 const char* OBS10[] = {"covmat", "covmat-optim", "covmat-symoptim", "kriging", "xvalid", "vario", "vario-fit", "migrate", "frombox", "addrandom",
                        "simgauss", "simtub", "simtub-nc", "simfft", "kcalc", "kcalc", "kriging", "kcalc", "kcalc", "kriging",
-                       "vario-gen", "vario-gen", "vario-dirs"};
-const int NOBS10 = 23;
-const char* OBS13[] = {"simtub", "simtub-nc", "simfft", "gibbs", "simtub", "simtub-nc", "simpgs", "simpgs", "gibbs"};
-const int NOBS13 = 9;
+                       "vario-gen", "vario-gen", "vario-dirs", "simpgs", "simbipgs"};
+const int NOBS10 = 25;
+const char* OBS13[] = {"simtub", "simtub-nc", "simfft", "gibbs", "simtub", "simtub-nc", "simpgs", "simpgs", "gibbs", "simbipgs"};
+const int NOBS13 = 10;
 
 int freeTargets(const World& W);
 long freeDefinedValues(const World& W, int ncolBefore);
@@ -486,7 +486,9 @@ Observed observe(World& W, const Op& op, int seedShift, Ctx* c, bool judge13, lo
     static const std::vector<VectorString> rules = {{"S", "T", "F1", "F2", "F3"}, {"S", "F1", "F2"}, {"T", "F1", "F2"}, {"S", "S", "F1", "F2", "F3"}};
     const VectorString& rn = rules[(size_t)(a % 4)];
     int nfac = (int)rn.size() / 2 + 1;
-    Rule* rule = Rule::createFromNames(rn);
+    // correlated underlying Gaussian functions for a third of the recipes (second function drawn given the first)
+    static const double RHO[] = {0., 0., 0.5, 0., -0.7, 0.};
+    Rule* rule = Rule::createFromNames(rn, RHO[(size_t)((a / 4) % 6)]);
     VectorDouble props(nfac, 1. / nfac);
     RuleProp* rp = RuleProp::createFromRule(rule, props);
     Model* m1 = Model::createFromParam(ECov::EXPONENTIAL, W.spec.range, 1.);
@@ -577,6 +579,37 @@ Observed observe(World& W, const Op& op, int seedShift, Ctx* c, bool judge13, lo
     delete rule;
     delete m1;
     delete m2;
+    return o;
+  }
+  if (k == "simbipgs")
+  {
+    // non-conditional bi-plurigaussian simulation: two rules, the facies is the product of both
+    static const std::vector<VectorString> R1 = {{"S", "S", "F1", "F2", "F3"}, {"S", "T", "F1", "F2", "F3"}, {"S", "F1", "F2"}};
+    const VectorString& r1 = R1[(size_t)(a % 3)];
+    VectorString r2 = {"S", "F1", "F2"};
+    int nf1 = (int)r1.size() / 2 + 1, nf2 = 2;
+    Rule* rule1 = Rule::createFromNames(r1);
+    Rule* rule2 = Rule::createFromNames(r2);
+    VectorDouble props(nf1 * nf2, 1. / (nf1 * nf2));
+    RuleProp* rp = RuleProp::createFromRules(rule1, rule2, props);
+    Model* m11 = Model::createFromParam(ECov::EXPONENTIAL, W.spec.range, 1.);
+    Model* m12 = Model::createFromParam(ECov::SPHERICAL, W.spec.range * 1.3, 1.);
+    Model* m21 = Model::createFromParam(ECov::EXPONENTIAL, W.spec.range * 0.7, 1.);
+    Model* m22 = Model::createFromParam(ECov::SPHERICAL, W.spec.range * 0.9, 1.);
+    int nbsimu = 1 + (int)(op.I(3, 0) % 2);
+    int nc = W.dbout->getColumnNumber();
+    NeighUnique* nu = NeighUnique::create();
+    o.ret = simbipgs(nullptr, W.dbout, rp, m11, m12, m21, m22, nu, nbsimu, seed, false, false, false, false, 20 + b % 30);
+    o.digest = std::to_string(o.ret) + newColumnsDigest(W.dbout, nc);
+    o.freeDefined = freeDefinedValues(W, nc);
+    delete nu;
+    delete rp;
+    delete rule1;
+    delete rule2;
+    delete m11;
+    delete m12;
+    delete m21;
+    delete m22;
     return o;
   }
   if (k == "gibbs")
@@ -693,6 +726,7 @@ bool admissibleObs(const std::string& k, const WorldSpec& w)
   if (k == "vario-fit") return w.nvar == 1;
   if (k == "gibbs") return w.nvar == 1 && w.nfex == 0 && w.undefIn == 0; // with or without a selection
   if (k == "simpgs") return w.ndim == 2 && w.nfex == 0 && w.outKind == 0 && w.selIn == 0;
+  if (k == "simbipgs") return w.ndim == 2 && w.nfex == 0 && w.outKind == 0;
   if (k == "covmat" || k == "covmat-optim" || k == "covmat-symoptim") return w.nfex == 0;
   if (k == "kcalc") return w.nvar == 1 && w.nfex == 0 && w.undefIn == 0;
   return true;
@@ -1165,7 +1199,7 @@ void execWorld(const Plan& p, Ctx& c, bool bare, const std::string& prop)
         if (op.S(0) == "gibbs") degenerate = W2.dbin->getSampleNumber(true) < 2;
         // a call that produced no defined value (e.g. every kriging system refused) has nothing that can vary
         // facies are discrete: two seeds may agree on a handful of nodes by chance (1/3 per node); 40 free values make that 1e-19
-        long need = (op.S(0) == "simpgs") ? 40 : 2;
+        long need = (op.S(0) == "simpgs" || op.S(0) == "simbipgs") ? 40 : 2;
         if (o2.freeDefined >= 0 && o2.freeDefined < need) { degenerate = true; c.count("probe.other-seed-too-few-free-values"); }
         if (o2.ret == 0 && o2.digest == o.digest && !degenerate)
           c.violation("C13|other-seed-same-result|" + op.S(0), "two different seeds gave bit-identical results");
